@@ -445,7 +445,10 @@ class Emitter:
         bx = self.e(b)
         nm = n['name']
         # anonymous union/struct members are reached through the emitted name
-        return '(' + bx + ')' + ('->' if n.get('isArrow') else '.') + self.prelude.fieldpath(md, nm)
+        r = '(' + bx + ')' + ('->' if n.get('isArrow') else '.') + self.prelude.fieldpath(md, nm)
+        if md.get('type', {}).get('qualType', '').rstrip().endswith('&'):
+            self.fire('R4 reference member -> pointer'); return '(*' + r + ')'     # the field holds a pointer (see em_ctor_init)
+        return r
 
     def e_ArraySubscriptExpr(self, n):
         a, i = self.kids(n); return self.e(a) + '[' + self.e(i) + ']'
